@@ -1,18 +1,21 @@
 //go:build verif
 
-package resolver
+package resolver_test
 
 import (
 	"encoding/base64"
+	"context"
 	"encoding/hex"
 	"errors"
 	"fmt"
+	"net/http"
 	"net/url"
 	"strings"
 	"testing"
 
 	"github.com/containerd/containerd/v2/pkg/reference"
 	"github.com/containerd/stargz-snapshotter/internal/verifutil"
+	"github.com/containerd/stargz-snapshotter/service/resolver"
 	runtime "k8s.io/cri-api/pkg/apis/runtime/v1"
 )
 
@@ -133,6 +136,7 @@ func TestVerifC18Resolver(t *testing.T) {
 			wu = "u"
 		}
 		denotes := "" // by construction; "?" = unknown (free-form address)
+		ambiguous := false
 		if a != nil {
 			switch rnd.Intn(7) {
 			case 0, 1:
@@ -141,7 +145,13 @@ func TestVerifC18Resolver(t *testing.T) {
 			case 3:
 				a.ServerAddress, denotes = "https://other.example.com", "other.example.com"
 			case 4:
-				a.ServerAddress, denotes = host, "-"
+				// scheme-less: nobody gets it today; reading it as the host itself is as confined
+				if rnd.Bool() {
+					a.ServerAddress, denotes = host, host
+				} else {
+					a.ServerAddress, denotes = "other.example.com:5000", "other.example.com:5000"
+				}
+				ambiguous = true
 			default:
 				a.ServerAddress, denotes = verifC18RandURL(rnd), "?"
 			}
@@ -151,12 +161,16 @@ func TestVerifC18Resolver(t *testing.T) {
 				denotes = "?"
 			}
 		}
-		u, s, err := ParseAuth(a, host)
+		u, s, err := resolver.ParseAuth(a, host)
 		res := "err"
 		if err == nil {
 			res = fmt.Sprintf("ok %s %s", verifC18Hex(u), verifC18Hex(s))
 		}
-		out.Emit(fmt.Sprintf("pa %s %s", verifC18AuthLine(a), verifC18Hex(host)), res)
+		if ambiguous && a.ServerAddress != "" {
+			out.Comment(fmt.Sprintf("pa %s %s (scheme-less server address: oracle only) -> %s", verifC18AuthLine(a), verifC18Hex(host), res))
+		} else {
+			out.Emit(fmt.Sprintf("pa %s %s", verifC18AuthLine(a), verifC18Hex(host)), res)
+		}
 		out.Count("parseauth")
 		if err != nil && (u != "" || s != "") {
 			out.Fail("creds-returned-with-error", fmt.Sprintf("ParseAuth(%s, %q) returned an error and (%q,%q)", verifC18AuthLine(a), host, u, s))
@@ -172,25 +186,28 @@ func TestVerifC18Resolver(t *testing.T) {
 		}
 	}
 
-	// ---- multiCredsFuncs: the first non-empty answer wins ----
+	// ---- credential functions through the PUBLIC wiring: RegistryHostsFromConfig(cfg, fs...) hands
+	// them (combined) to the host's docker authorizer; a Basic challenge makes the authorizer ask for
+	// the credentials of the host and put them into the Authorization header.  The authorizer only
+	// accepts a complete pair, so the observable classes are: ok(user, secret) / incomplete / error.
 	refspec, err := reference.Parse("reg.example.com/foo/bar:v1")
 	if err != nil {
 		t.Fatal(err)
 	}
-	for i := 0; i < n; i++ {
+	errCred := errors.New("verif: credential function failed")
+	for i := 0; i < n/3; i++ {
 		nf := rnd.Intn(6)
 		type ans struct {
 			u, s string
 			err  bool
 		}
 		var answers []ans
-		var fs []Credential
-		calls := make([]int, nf)
+		var fs []resolver.Credential
 		badArgs := false
 		var parts []string
 		for j := 0; j < nf; j++ {
 			var a ans
-			switch rnd.Pick(5, 2, 2, 2, 2) {
+			switch rnd.Pick(5, 2, 2, 4, 2) {
 			case 0:
 			case 1:
 				a = ans{u: fmt.Sprintf("u%d", j)}
@@ -200,20 +217,14 @@ func TestVerifC18Resolver(t *testing.T) {
 				a = ans{u: fmt.Sprintf("u%d", j), s: fmt.Sprintf("s%d", j)}
 			case 4:
 				a = ans{err: true}
-				if rnd.Bool() {
-					// an erroring function that nevertheless returns strings
-					a.u = "leak"
-				}
 			}
 			answers = append(answers, a)
-			j := j
 			fs = append(fs, func(host string, ref reference.Spec) (string, string, error) {
-				calls[j]++
-				if host != "the.host" || ref.String() != refspec.String() {
+				if host != "reg.example.com" || ref.String() != refspec.String() {
 					badArgs = true
 				}
 				if a.err {
-					return a.u, a.s, errors.New("verif: credential function failed")
+					return "", "", errCred
 				}
 				return a.u, a.s, nil
 			})
@@ -223,19 +234,39 @@ func TestVerifC18Resolver(t *testing.T) {
 				parts = append(parts, verifC18Hex(a.u)+":"+verifC18Hex(a.s))
 			}
 		}
-		u, s, err := multiCredsFuncs(refspec, fs...)("the.host")
-		res := "err"
-		if err == nil {
-			res = fmt.Sprintf("ok %s %s", verifC18Hex(u), verifC18Hex(s))
+		hosts, err := resolver.RegistryHostsFromConfig(resolver.Config{}, fs...)(refspec)
+		if err != nil || len(hosts) != 1 || hosts[0].Authorizer == nil {
+			t.Fatalf("RegistryHostsFromConfig without mirrors: %v, %d hosts", err, len(hosts))
+		}
+		req, _ := http.NewRequest("GET", "https://reg.example.com/v2/", nil)
+		challenge := &http.Response{StatusCode: 401, Header: http.Header{"Www-Authenticate": []string{`Basic realm="verif"`}}, Request: req}
+		res := ""
+		gu, gs := "", ""
+		aerr := hosts[0].Authorizer.AddResponses(context.Background(), []*http.Response{challenge})
+		switch {
+		case aerr == nil:
+			req2, _ := http.NewRequest("GET", "https://reg.example.com/v2/", nil)
+			if err := hosts[0].Authorizer.Authorize(context.Background(), req2); err != nil {
+				t.Fatal(err)
+			}
+			raw, derr := base64.StdEncoding.DecodeString(strings.TrimPrefix(req2.Header.Get("Authorization"), "Basic "))
+			if derr != nil {
+				t.Fatalf("unexpected Authorization header %q", req2.Header.Get("Authorization"))
+			}
+			gu, gs, _ = strings.Cut(string(raw), ":")
+			res = fmt.Sprintf("ok %s %s", verifC18Hex(gu), verifC18Hex(gs))
+		case errors.Is(aerr, errCred):
+			res = "err"
+		default:
+			res = "incomplete"
 		}
 		line := "-"
 		if nf > 0 {
 			line = strings.Join(parts, ";")
 		}
-		out.Emit("mc "+line, res)
-		out.Count("multicreds")
-		out.Distinct("mc:" + line)
-		// oracle: scan for the first function that is not "empty without error"
+		out.Emit("mcb "+line, res)
+		out.Count("multicreds-via-authorizer")
+		out.Distinct("mcb:" + line)
 		first := -1
 		for j, a := range answers {
 			if a.err || a.u != "" || a.s != "" {
@@ -245,16 +276,20 @@ func TestVerifC18Resolver(t *testing.T) {
 		}
 		switch {
 		case first < 0:
-			if err != nil || u != "" || s != "" {
-				out.Fail("multicreds-answer-from-nowhere", fmt.Sprintf("all of %s are empty but the combination answered (%q,%q,%v)", line, u, s, err))
+			if res != "incomplete" {
+				out.Fail("multicreds-answer-from-nowhere", fmt.Sprintf("all of %s are empty but the authorizer got %s", line, res))
 			}
 		case answers[first].err:
-			if err == nil || u != "" || s != "" {
-				out.Fail("multicreds-skipped-an-error", fmt.Sprintf("%s: function %d failed first but the combination answered (%q,%q,%v)", line, first, u, s, err))
+			if res != "err" {
+				out.Fail("multicreds-skipped-an-error", fmt.Sprintf("%s: function %d failed first but the authorizer got %s", line, first, res))
+			}
+		case answers[first].u != "" && answers[first].s != "":
+			if aerr != nil || gu != answers[first].u || gs != answers[first].s {
+				out.Fail("multicreds-not-first-nonempty", fmt.Sprintf("%s: function %d is the first non-empty one but the authorizer got %s (%q,%q)", line, first, res, gu, gs))
 			}
 		default:
-			if err != nil || u != answers[first].u || s != answers[first].s {
-				out.Fail("multicreds-not-first-nonempty", fmt.Sprintf("%s: function %d is the first non-empty one but the combination answered (%q,%q,%v)", line, first, u, s, err))
+			if res != "incomplete" {
+				out.Fail("multicreds-not-first-nonempty", fmt.Sprintf("%s: function %d (one half empty) is the first non-empty one, the authorizer must find the pair incomplete but got %s", line, first, res))
 			}
 		}
 		if badArgs {
@@ -268,10 +303,10 @@ func TestVerifC18Resolver(t *testing.T) {
 		if i < 8 {
 			nm = i % 4
 		}
-		var mirrors []MirrorConfig
+		var mirrors []resolver.MirrorConfig
 		flags := ""
 		for j := 0; j < nm; j++ {
-			m := MirrorConfig{Host: fmt.Sprintf("m%d.test", j), RequestTimeoutSec: -1}
+			m := resolver.MirrorConfig{Host: fmt.Sprintf("m%d.test", j), RequestTimeoutSec: -1}
 			if rnd.Intn(3) != 0 || (i < 8 && j == 0) {
 				if rnd.Bool() {
 					m.Header = map[string]any{"Authorization": fmt.Sprintf("Bearer secret-%d", j), "X-Verif": []any{fmt.Sprintf("custom-%d", j)}}
@@ -289,7 +324,7 @@ func TestVerifC18Resolver(t *testing.T) {
 		if err != nil {
 			t.Fatal(err)
 		}
-		hosts, err := RegistryHostsFromConfig(Config{Host: map[string]HostConfig{refHost: {Mirrors: mirrors}}})(ref)
+		hosts, err := resolver.RegistryHostsFromConfig(resolver.Config{Host: map[string]resolver.HostConfig{refHost: {Mirrors: mirrors}}})(ref)
 		if err != nil {
 			out.Emit("rh "+flags, "err")
 			continue
